@@ -218,6 +218,12 @@ OnCommit(Mo, e) ==
                     IN IF ~r.ok THEN r
                        ELSE V(TRUE, [r.M EXCEPT !.call[c].count = @ + Cardinality(gone),
                                                 !.call[c].st = "committed"], "")
+       ELSE IF cl.op = "reopen"
+       THEN \* opening a handle writes its settings one autocommit statement at a time: each must leave the
+            \* contents alone and the counters in agreement with the rows (checked by Publish)
+            IF ObsProj(e.rows) # Proj(Mo.db)
+            THEN Fail(Mo, "C08/C18 opening a handle on the directory changed the stored items")
+            ELSE Publish(Mo, e, Mo.db)
        ELSE IF cl.st = "committed"
        THEN Fail(Mo, "C05 a single operation committed twice (not atomic)")
        ELSE LET res == Dispatch(Mo.db, cl)
